@@ -115,7 +115,7 @@ class PDFTextDevice(PDFDevice):
         wordspace = textstate.wordspace * scaling
         rise = textstate.rise
         assert font is not None
-        if font.is_multibyte():
+        if self._word_space_cid(font) is None:
             wordspace = 0
         dxscale = 0.001 * fontsize * scaling
         if font.is_vertical():
@@ -149,6 +149,20 @@ class PDFTextDevice(PDFDevice):
                 graphicstate,
             )
 
+    @staticmethod
+    def _word_space_cid(font: PDFFont) -> Optional[int]:
+        """The CID that word spacing follows.
+
+        Word spacing belongs to the single-byte character code 32 (PDF
+        32000-1 9.3.3). In a composite font that is the CID which the encoding
+        CMap gives the one-byte string b" ", if it defines such a code at all;
+        a two-byte code never qualifies.
+        """
+        if not font.is_multibyte():
+            return 32
+        cids = tuple(font.decode(b" "))
+        return cids[0] if len(cids) == 1 else None
+
     def render_string_horizontal(
         self,
         seq: PDFTextSeq,
@@ -165,6 +179,7 @@ class PDFTextDevice(PDFDevice):
         graphicstate: "PDFGraphicState",
     ) -> Point:
         (x, y) = pos
+        space_cid = self._word_space_cid(font)
         for obj in seq:
             if isinstance(obj, (int, float)):
                 x -= obj * dxscale
@@ -182,7 +197,7 @@ class PDFTextDevice(PDFDevice):
                     )
                     # character spacing follows every glyph, the last one included
                     x += charspace
-                    if cid == 32 and wordspace:
+                    if cid == space_cid and wordspace:
                         x += wordspace
             else:
                 logger.warning(
@@ -206,6 +221,7 @@ class PDFTextDevice(PDFDevice):
         graphicstate: "PDFGraphicState",
     ) -> Point:
         (x, y) = pos
+        space_cid = self._word_space_cid(font)
         for obj in seq:
             if isinstance(obj, (int, float)):
                 y -= obj * dxscale
@@ -223,7 +239,7 @@ class PDFTextDevice(PDFDevice):
                     )
                     # character spacing follows every glyph, the last one included
                     y += charspace
-                    if cid == 32 and wordspace:
+                    if cid == space_cid and wordspace:
                         y += wordspace
             else:
                 logger.warning(
